@@ -58,7 +58,7 @@ type Result struct {
 const (
 	maxStoredViolations = 60
 	maxSamples          = 6
-	distinctCap         = 6_000_000
+	distinctCap         = 16_000_000
 	distinctShards      = 64
 )
 
@@ -436,6 +436,9 @@ func (c *Ctx) Finish() {
 	}
 	for k, v := range c.distinct {
 		r.Distinct[k] = v.n.Load()
+		if v.n.Load() >= distinctCap {
+			r.Notes = append(r.Notes, fmt.Sprintf("distinct set %q reached the cap of %d entries: the reported count is a lower bound", k, distinctCap))
+		}
 	}
 	c.mu.Unlock()
 	if c.outPath == "" {
